@@ -327,3 +327,7 @@ import props_c06
 props_c06.register(_sys.modules[__name__])
 import props_c08
 props_c08.register(_sys.modules[__name__])
+import props_c07
+props_c07.register(_sys.modules[__name__])
+import props_c05
+props_c05.register(_sys.modules[__name__])
